@@ -118,7 +118,7 @@ func NewComponents(spec specification.Components, cfg Config) (zero Components, 
 						oName += Title(ss)
 					}
 				}
-				if raw != "" && strings.HasSuffix(raw, "/") {
+				if dirs := strings.Split(raw, "/")[1:]; len(dirs) > 1 && dirs[len(dirs)-1] == "" {
 					oName += "RT"
 				}
 			}
